@@ -586,6 +586,14 @@ Proof.
 Qed.
 Print Assumptions mbox_concurrent_finished.
 
+Definition all_finishedb (s : cstate) : bool :=
+  forallb (fun w => match w_evs w with [] => true | _ => false end) (c_ws s).
+Lemma all_finishedb_ok s : all_finishedb s = true -> all_finished s.
+Proof.
+  unfold all_finishedb, all_finished. intros H w Hin.
+  pose proof (proj1 (forallb_forall _ _) H w Hin) as E. cbv beta in E. destruct (w_evs w); [reflexivity|discriminate].
+Qed.
+
 (* ---- non-vacuity: three writers, the second one hits a write error after 2 of its 3 bytes ---- *)
 Definition bf_none : bfaults :=
   {| bf_open := false; bf_lock := false; bf_write := None; bf_read := None; bf_fsync := false |}.
@@ -615,7 +623,7 @@ Example conc_ex3_final :
   ([9; 6; 7; 1; 2], None, [1; 2; 0]%nat, [2; 0]%nat, [Some 0; Some 111; Some 0], [0; 0; 0]%nat).
 Proof. vm_compute. reflexivity. Qed.
 Example conc_ex3_finished : all_finished (crun (mstart [9] ex3) ex3_sched).
-Proof. intros w H. vm_compute in H. repeat (destruct H as [<-|H]; [reflexivity|]). contradiction. Qed.
+Proof. apply all_finishedb_ok. vm_compute. reflexivity. Qed.
 
 (* ---- the lock is needed.  Two writers whose lock_ex() failed (qmail-local carries on without the
    lock, flaglocked = 0, and then skips seek_trunc): the second fails after 1 byte.  Its stray byte
@@ -633,8 +641,8 @@ Example mbox_concurrent_without_lock_refuted :
   c_file s <> [9] ++ concat (map (entry_of ex2_nolock) (committed s)) /\
   c_file s <> [9] ++ entry_of ex2_nolock 0.
 Proof.
-  cbv zeta. split; [|vm_compute; repeat split; discriminate].
-  intros w H. vm_compute in H. repeat (destruct H as [<-|H]; [reflexivity|]). contradiction.
+  cbv zeta. split; [apply all_finishedb_ok; vm_compute; reflexivity|].
+  vm_compute. repeat split; discriminate.
 Qed.
 Example mbox_concurrent_finished_without_lock_refuted :
   ~ (forall old l sched, let s := crun (mstart old l) sched in
@@ -643,3 +651,780 @@ Proof.
   intros H. specialize (H [9] ex2_nolock ex2_sched).
   pose proof mbox_concurrent_without_lock_refuted as (F & _ & _ & N & _). exact (N (H F)).
 Qed.
+
+(* ================================================================== B. maildir, n deliveries *)
+(* One shared maildir.  Directory entries tmp/NAME and new/NAME point to inodes; an inode has the bytes
+   written so far and how many of them are fsynced.  Inode numbers are never reused.  Each delivery
+   has its own NAME (time.pid.host), and, once open_excl succeeded, its own file descriptor. *)
+Record inode := { i_data : bytes; i_synced : nat }.
+Record mdir := { d_tmp : nat -> option nat;     (* tmp/name -> inode number *)
+                 d_new : nat -> option nat;     (* new/name -> inode number *)
+                 d_ino : nat -> inode;
+                 d_next : nat }.                (* next unused inode number *)
+Definition fset {A} (f : nat -> A) (x : nat) (v : A) : nat -> A := fun y => if Nat.eqb y x then v else f y.
+Definition isSome {A} (o : option A) : bool := match o with Some _ => true | None => false end.
+
+Record mwriter := { mw_name : nat; mw_fd : option nat;      (* inode behind this process's fd *)
+                    mw_done : list mev;                     (* ghost: events performed *)
+                    mw_evs : list mev }.
+Record mstate := { ms_dir : mdir; ms_ws : list mwriter;
+                   ms_ok : bool }.   (* false once a scheduled event demanded an impossible outcome *)
+
+(* the effect of one event of the delivery named [x], whose fd is [fd], on the shared directory.
+   None = this outcome cannot happen in this directory: open_excl cannot succeed on an existing
+   tmp/x; link(tmp/x,new/x) cannot succeed if tmp/x is missing or new/x exists. *)
+Definition dstep (d : mdir) (x : nat) (fd : option nat) (e : mev) : option (mdir * option nat) :=
+  match e with
+  | MCreateTmp true =>
+    match d_tmp d x with
+    | Some _ => None
+    | None => Some ({| d_tmp := fset (d_tmp d) x (Some (d_next d)); d_new := d_new d;
+                       d_ino := fset (d_ino d) (d_next d) {| i_data := []; i_synced := 0 |};
+                       d_next := S (d_next d) |}, Some (d_next d))
+    end
+  | MWrite data =>
+    match fd with
+    | Some a => Some ({| d_tmp := d_tmp d; d_new := d_new d;
+                         d_ino := fset (d_ino d) a {| i_data := i_data (d_ino d a) ++ data;
+                                                     i_synced := i_synced (d_ino d a) |};
+                         d_next := d_next d |}, fd)
+    | None => Some (d, fd)
+    end
+  | MFsync true =>
+    match fd with
+    | Some a => Some ({| d_tmp := d_tmp d; d_new := d_new d;
+                         d_ino := fset (d_ino d) a {| i_data := i_data (d_ino d a);
+                                                     i_synced := length (i_data (d_ino d a)) |};
+                         d_next := d_next d |}, fd)
+    | None => Some (d, fd)
+    end
+  | MLinkNew true =>
+    match d_tmp d x, d_new d x with
+    | Some a, None => Some ({| d_tmp := d_tmp d; d_new := fset (d_new d) x (Some a);
+                               d_ino := d_ino d; d_next := d_next d |}, fd)
+    | _, _ => None
+    end
+  | MUnlinkTmp => Some ({| d_tmp := fset (d_tmp d) x None; d_new := d_new d;
+                           d_ino := d_ino d; d_next := d_next d |}, fd)
+  | _ => Some (d, fd)
+  end.
+
+Definition mcstep (s : mstate) (i : nat) : mstate :=
+  match nth_error (ms_ws s) i with
+  | None => s
+  | Some w =>
+    match mw_evs w with
+    | [] => s
+    | e :: rest =>
+      match dstep (ms_dir s) (mw_name w) (mw_fd w) e with
+      | None => {| ms_dir := ms_dir s; ms_ws := ms_ws s; ms_ok := false |}
+      | Some (d', fd') =>
+        {| ms_dir := d';
+           ms_ws := upd (ms_ws s) i {| mw_name := mw_name w; mw_fd := fd';
+                                       mw_done := mw_done w ++ [e]; mw_evs := rest |};
+           ms_ok := ms_ok s |}
+      end
+    end
+  end.
+Definition mcrun (s : mstate) (sched : list nat) : mstate := fold_left mcstep sched s.
+
+(* what delivery [w] can see of its own files through the shared directory, as a single-writer state *)
+Definition mproj (d : mdir) (w : mwriter) : mfs :=
+  {| m_tmp := isSome (d_tmp d (mw_name w)); m_new := isSome (d_new d (mw_name w));
+     m_data := match mw_fd w with Some a => i_data (d_ino d a) | None => [] end;
+     m_synced := match mw_fd w with Some a => i_synced (d_ino d a) | None => 0%nat end |}.
+
+(* single-writer discipline on its own name: create only when neither tmp/x nor new/x exists,
+   link only when tmp/x exists and new/x does not, write only while tmp/x exists *)
+Definition mwf1 (s : mfs) (e : mev) : bool :=
+  match e with
+  | MCreateTmp true => negb (m_tmp s) && negb (m_new s)
+  | MLinkNew true => m_tmp s && negb (m_new s)
+  | MWrite _ => m_tmp s
+  | _ => true
+  end.
+Fixpoint mwf (s : mfs) (evs : list mev) : bool :=
+  match evs with [] => true | e :: r => mwf1 s e && mwf (mstep s e) r end.
+
+Lemma mwf_repeat s k rest : mwf s (repeat (MCreateTmp false) k ++ rest) = mwf s rest.
+Proof. induction k as [|k IH]; [reflexivity|]. cbn [repeat app mwf mwf1 andb]. exact IH. Qed.
+Lemma maildir_wf content f : mwf mfs0 (maildir_events content f) = true.
+Proof.
+  unfold maildir_events.
+  destruct (mf_chdir f); [reflexivity|]. cbn [mwf mwf1 andb]. change (mstep mfs0 (MChdir true)) with mfs0.
+  destruct (mf_create_err f); [reflexivity|]. rewrite mwf_repeat.
+  destruct (Nat.leb 3 (mf_create_fail f)); [reflexivity|].
+  destruct (mf_write f); [reflexivity|]. destruct (mf_read f); [reflexivity|].
+  destruct (mf_fsync f); [reflexivity|]. destruct (mf_close f); [reflexivity|].
+  destruct (mf_link f); reflexivity.
+Qed.
+
+Lemma fset_same {A} (f : nat -> A) x v : fset f x v x = v.
+Proof. unfold fset. rewrite Nat.eqb_refl. reflexivity. Qed.
+Lemma fset_other {A} (f : nat -> A) x v y : y <> x -> fset f x v y = f y.
+Proof. unfold fset. intros H. destruct (Nat.eqb_spec y x); [contradiction|reflexivity]. Qed.
+
+Section Maildir.
+Variable d0 : mdir.                                   (* the maildir before these deliveries *)
+Variable spec : list (nat * (bytes * list mev)).      (* delivery i: its name, content, program *)
+Definition names : list nat := map fst spec.
+Hypothesis names_nodup : NoDup names.
+Hypothesis names_fresh : forall x, In x names -> d_tmp d0 x = None /\ d_new d0 x = None.
+Hypothesis progs_ok : Forall (fun t => mwf mfs0 (snd (snd t)) = true /\
+                                       mprefixes_ok (fst (snd t)) mfs0 (snd (snd t)) = true) spec.
+
+Definition minit : mstate :=
+  {| ms_dir := d0;
+     ms_ws := map (fun t => {| mw_name := fst t; mw_fd := None; mw_done := []; mw_evs := snd (snd t) |}) spec;
+     ms_ok := true |}.
+
+Definition mrun_of (w : mwriter) : mfs := fold_left mstep (mw_done w) mfs0.
+
+Record WInv (d : mdir) (content : bytes) (w : mwriter) : Prop := {
+  wi_proj : mproj d w = mrun_of w;
+  wi_tmpfd : forall a, d_tmp d (mw_name w) = Some a -> mw_fd w = Some a;
+  wi_newfd : forall a, d_new d (mw_name w) = Some a -> mw_fd w = Some a;
+  wi_fd : forall a, mw_fd w = Some a -> (d_next d0 <= a < d_next d)%nat;
+  wi_wf : mwf (mrun_of w) (mw_evs w) = true;
+  wi_pref : mprefixes_ok content (mrun_of w) (mw_evs w) = true }.
+
+Lemma WInv_frame d d' content w :
+  d_tmp d' (mw_name w) = d_tmp d (mw_name w) -> d_new d' (mw_name w) = d_new d (mw_name w) ->
+  (forall a, mw_fd w = Some a -> d_ino d' a = d_ino d a) -> (d_next d <= d_next d')%nat ->
+  WInv d content w -> WInv d' content w.
+Proof.
+  intros Ht Hn Hi Hx [P T N F W R]. constructor; auto.
+  - rewrite <- P. unfold mproj. rewrite Ht, Hn. destruct (mw_fd w) as [a|]; [rewrite (Hi a eq_refl)|]; reflexivity.
+  - intros a H. rewrite Ht in H. auto.
+  - intros a H. rewrite Hn in H. auto.
+  - intros a H. specialize (F a H). lia.
+Qed.
+
+(* one event of a delivery that satisfies its invariant: the outcome is possible, the delivery's view
+   stays its own single-writer run, and nothing outside its own name and its own inode changes *)
+Definition dstep_post (d : mdir) (content : bytes) (w : mwriter) (e : mev) (rest : list mev) : Prop :=
+  exists d' fd',
+    dstep d (mw_name w) (mw_fd w) e = Some (d', fd') /\
+    WInv d' content {| mw_name := mw_name w; mw_fd := fd'; mw_done := mw_done w ++ [e]; mw_evs := rest |} /\
+    (forall y, y <> mw_name w -> d_tmp d' y = d_tmp d y /\ d_new d' y = d_new d y) /\
+    (forall a, mw_fd w <> Some a -> (a < d_next d)%nat -> d_ino d' a = d_ino d a) /\
+    (d_next d <= d_next d')%nat /\
+    (fd' = mw_fd w \/ fd' = Some (d_next d) /\ d_next d' = S (d_next d)).
+
+Lemma dstep_spec d content w e rest :
+  (d_next d0 <= d_next d)%nat ->
+  WInv d content w -> mw_evs w = e :: rest -> dstep_post d content w e rest.
+Proof.
+  intros Hnx [P T N F W R] Hev. rewrite Hev in W, R.
+  cbn [mwf] in W. apply andb_true_iff in W as [W1 W].
+  cbn [mprefixes_ok] in R. apply andb_true_iff in R as [_ R].
+  assert (Hrun : forall fd', mrun_of {| mw_name := mw_name w; mw_fd := fd'; mw_done := mw_done w ++ [e]; mw_evs := rest |}
+                 = mstep (mrun_of w) e).
+  { intros fd'. unfold mrun_of. cbn [mw_done]. rewrite fold_left_app. reflexivity. }
+  assert (Triv : mstep (mrun_of w) e = mrun_of w -> dstep d (mw_name w) (mw_fd w) e = Some (d, mw_fd w) ->
+                 dstep_post d content w e rest).
+  { intros Hs Hd. exists d, (mw_fd w). split; [exact Hd|]. split.
+    - constructor; cbn [mw_name mw_fd mw_evs]; rewrite ?Hrun, ?Hs; auto.
+      all: rewrite <- Hs; assumption.
+    - repeat split; auto. }
+  destruct e as [b|[|]|data|[|]|b|[|]| |c]; try (apply Triv; reflexivity).
+  - (* open_excl succeeds *)
+    cbn [mwf1] in W1. rewrite <- P in W1. cbn [mproj m_tmp m_new] in W1.
+    apply andb_true_iff in W1 as [Wt Wn].
+    destruct (d_tmp d (mw_name w)) as [a|] eqn:Et; [discriminate|].
+    destruct (d_new d (mw_name w)) as [a|] eqn:En; [discriminate|].
+    unfold dstep_post. cbn [dstep]. rewrite Et. eexists. eexists. split; [reflexivity|]. split.
+    + constructor; cbn [mw_name mw_fd mw_evs d_tmp d_new d_ino d_next]; rewrite ?Hrun; auto.
+      * rewrite <- P. unfold mproj. cbn [mw_name mw_fd mstep m_tmp m_new m_data m_synced d_tmp d_new d_ino].
+        rewrite !fset_same, En. reflexivity.
+      * intros a H. rewrite fset_same in H. exact H.
+      * intros a H. rewrite En in H. discriminate.
+      * intros a H. injection H as <-. lia.
+    + cbn [d_tmp d_new d_ino d_next]. repeat split; auto.
+      * apply fset_other. exact H.
+      * intros a _ Ha. apply fset_other. lia.
+  - (* write *)
+    cbn [mwf1] in W1. rewrite <- P in W1. cbn [mproj m_tmp] in W1.
+    assert (Ht : exists a, d_tmp d (mw_name w) = Some a).
+    { destruct (d_tmp d (mw_name w)) as [a|]; [eauto|discriminate]. }
+    destruct Ht as (a & Et).
+    pose proof (T a Et) as Hfd.
+    unfold dstep_post. cbn [dstep]. rewrite Hfd. eexists. eexists. split; [reflexivity|]. split.
+    + constructor; cbn [mw_name mw_fd mw_evs d_tmp d_new d_ino d_next]; rewrite ?Hrun; auto.
+      all: try (rewrite <- Hfd; assumption).
+      rewrite <- P. unfold mproj. cbn [mw_name mw_fd mstep m_tmp m_new m_data m_synced d_tmp d_new d_ino].
+      rewrite Hfd, !fset_same. reflexivity.
+    + cbn [d_tmp d_new d_ino d_next]. repeat split; auto.
+      intros b Hb _. apply fset_other. congruence.
+  - (* fsync succeeds *)
+    unfold dstep_post. cbn [dstep]. destruct (mw_fd w) as [a|] eqn:Hfd.
+    + eexists. eexists. split; [reflexivity|]. split.
+      * constructor; cbn [mw_name mw_fd mw_evs d_tmp d_new d_ino d_next]; rewrite ?Hrun; auto.
+        rewrite <- P. unfold mproj. cbn [mw_name mw_fd mstep m_tmp m_new m_data m_synced d_tmp d_new d_ino].
+        rewrite Hfd, !fset_same. reflexivity.
+      * cbn [d_tmp d_new d_ino d_next]. repeat split; auto.
+        intros b Hb _. apply fset_other. congruence.
+    + eexists. eexists. split; [reflexivity|]. split.
+      * constructor; cbn [mw_name mw_fd mw_evs]; rewrite ?Hrun; auto; try (rewrite Hfd; assumption).
+        rewrite <- P. unfold mproj. cbn [mw_name mw_fd mstep m_tmp m_new m_data m_synced].
+        rewrite Hfd. reflexivity.
+      * repeat split; auto.
+  - (* link succeeds *)
+    cbn [mwf1] in W1. rewrite <- P in W1. cbn [mproj m_tmp m_new] in W1.
+    apply andb_true_iff in W1 as [Wt Wn].
+    assert (Ht : exists a, d_tmp d (mw_name w) = Some a).
+    { destruct (d_tmp d (mw_name w)) as [a|]; [eauto|discriminate]. }
+    destruct Ht as (a & Et).
+    assert (En : d_new d (mw_name w) = None).
+    { destruct (d_new d (mw_name w)) as [a'|]; [discriminate|reflexivity]. }
+    unfold dstep_post. cbn [dstep]. rewrite Et, En. eexists. eexists. split; [reflexivity|]. split.
+    + constructor; cbn [mw_name mw_fd mw_evs d_tmp d_new d_ino d_next]; rewrite ?Hrun; auto.
+      * rewrite <- P. unfold mproj. cbn [mw_name mw_fd mstep m_tmp m_new m_data m_synced d_tmp d_new d_ino].
+        rewrite !fset_same, Et. reflexivity.
+      * intros b H. rewrite fset_same in H. injection H as <-. exact (T a Et).
+    + cbn [d_tmp d_new d_ino d_next]. repeat split; auto.
+      apply fset_other. exact H.
+  - (* unlink tmp/x *)
+    unfold dstep_post. cbn [dstep]. eexists. eexists. split; [reflexivity|]. split.
+    + constructor; cbn [mw_name mw_fd mw_evs d_tmp d_new d_ino d_next]; rewrite ?Hrun; auto.
+      * rewrite <- P. unfold mproj. cbn [mw_name mw_fd mstep m_tmp m_new m_data m_synced d_tmp d_new d_ino].
+        rewrite !fset_same. reflexivity.
+      * intros b H. rewrite fset_same in H. discriminate.
+    + cbn [d_tmp d_new d_ino d_next]. repeat split; auto.
+      apply fset_other. exact H.
+Qed.
+
+Record MInv (s : mstate) : Prop := {
+  mi_len : length (ms_ws s) = length spec;
+  mi_w : forall i w t, nth_error (ms_ws s) i = Some w -> nth_error spec i = Some t ->
+           mw_name w = fst t /\ WInv (ms_dir s) (fst (snd t)) w;
+  mi_fds : forall i j wi wj a, nth_error (ms_ws s) i = Some wi -> nth_error (ms_ws s) j = Some wj ->
+           mw_fd wi = Some a -> mw_fd wj = Some a -> i = j;
+  mi_foreign : forall y, ~ In y names ->
+           d_tmp (ms_dir s) y = d_tmp d0 y /\ d_new (ms_dir s) y = d_new d0 y;
+  mi_old : forall a, (a < d_next d0)%nat -> d_ino (ms_dir s) a = d_ino d0 a;
+  mi_next : (d_next d0 <= d_next (ms_dir s))%nat;
+  mi_ok : ms_ok s = true }.
+
+Lemma names_distinct i j ti tj :
+  nth_error spec i = Some ti -> nth_error spec j = Some tj -> fst ti = fst tj -> i = j.
+Proof.
+  intros Hi Hj E. apply (proj1 (NoDup_nth_error names) names_nodup).
+  - unfold names. rewrite map_length. apply nth_error_Some. congruence.
+  - unfold names. rewrite !nth_error_map', Hi, Hj. cbn. congruence.
+Qed.
+Lemma spec_at s i w : MInv s -> nth_error (ms_ws s) i = Some w -> exists t, nth_error spec i = Some t.
+Proof.
+  intros I Hw. destruct (nth_error spec i) as [t|] eqn:E; [eauto|]. exfalso.
+  apply nth_error_None in E. rewrite <- (mi_len s I) in E.
+  assert (nth_error (ms_ws s) i <> None) by congruence. apply nth_error_Some in H. lia.
+Qed.
+
+Lemma MInv_init : MInv minit.
+Proof.
+  constructor; cbn [minit ms_dir ms_ws ms_ok]; auto.
+  - apply map_length.
+  - intros i w t Hw Ht. rewrite nth_error_map', Ht in Hw. cbn in Hw. injection Hw as <-.
+    cbn [mw_name]. split; [reflexivity|].
+    assert (Hin : In t spec) by exact (nth_error_In _ _ Ht).
+    destruct (names_fresh (fst t) (in_map fst _ _ Hin)) as (Ft & Fn).
+    destruct (proj1 (Forall_forall _ _) progs_ok t Hin) as (Pw & Pp).
+    constructor; unfold mrun_of; cbn [mw_name mw_fd mw_done mw_evs fold_left]; auto; try discriminate.
+    + unfold mproj. cbn [mw_name mw_fd]. rewrite Ft, Fn. reflexivity.
+    + intros a H. rewrite Ft in H. discriminate.
+    + intros a H. rewrite Fn in H. discriminate.
+  - intros i j wi wj a Hi _ Hf. rewrite nth_error_map' in Hi.
+    destruct (nth_error spec i); [|discriminate]. cbn in Hi. injection Hi as <-. discriminate.
+Qed.
+
+Lemma MInv_step s i : MInv s -> MInv (mcstep s i).
+Proof.
+  intros I. unfold mcstep.
+  destruct (nth_error (ms_ws s) i) as [w|] eqn:Hw; [|exact I].
+  destruct (mw_evs w) as [|e rest] eqn:Hev; [exact I|].
+  destruct (spec_at s i w I Hw) as (t & Ht).
+  destruct (mi_w s I i w t Hw Ht) as (Hname & HW).
+  destruct (dstep_spec _ _ w e rest (mi_next s I) HW Hev) as (d' & fd' & Hd & HW' & Hframe & Hino & Hnext & Hfd').
+  rewrite Hd.
+  assert (Hother : forall j wj, j <> i -> nth_error (ms_ws s) j = Some wj ->
+            mw_name wj <> mw_name w /\ (forall a, mw_fd wj = Some a -> mw_fd w <> Some a /\ (a < d_next (ms_dir s))%nat)).
+  { intros j wj Hji Hj. destruct (spec_at s j wj I Hj) as (tj & Htj).
+    destruct (mi_w s I j wj tj Hj Htj) as (Hnj & HWj). split.
+    - intros E. apply Hji. apply (names_distinct j i tj t Htj Ht). congruence.
+    - intros a Ha. split; [|exact (proj2 (wi_fd _ _ _ HWj a Ha))].
+      intros Hb. apply Hji. exact (mi_fds s I j i wj w a Hj Hw Ha Hb). }
+  constructor; cbn [ms_dir ms_ws ms_ok].
+  - rewrite upd_length. exact (mi_len s I).
+  - intros j wj tj Hj Htj. destruct (Nat.eq_dec j i) as [->|Hji].
+    + rewrite (upd_same _ _ _ _ Hw) in Hj. injection Hj as <-. rewrite Ht in Htj. injection Htj as <-.
+      cbn [mw_name]. split; [exact Hname|exact HW'].
+    + rewrite upd_other in Hj by exact Hji.
+      destruct (mi_w s I j wj tj Hj Htj) as (Hnj & HWj). split; [exact Hnj|].
+      destruct (Hother j wj Hji Hj) as (Hne & Hfdj).
+      apply (WInv_frame (ms_dir s)); auto.
+      * apply (Hframe _ Hne).
+      * apply (Hframe _ Hne).
+      * intros a Ha. destruct (Hfdj a Ha). apply Hino; auto.
+  - intros j k wj wk a Hj Hk Ha Hb.
+    destruct (Nat.eq_dec j i) as [->|Hji]; destruct (Nat.eq_dec k i) as [->|Hki]; auto.
+    + rewrite (upd_same _ _ _ _ Hw) in Hj. injection Hj as <-. cbn [mw_fd] in Ha.
+      rewrite upd_other in Hk by exact Hki. destruct (Hother k wk Hki Hk) as (_ & Hfk).
+      destruct (Hfk a Hb) as (Hx & Hlt). destruct Hfd' as [E|[E _]]; [congruence|].
+      rewrite E in Ha. injection Ha as <-. lia.
+    + rewrite (upd_same _ _ _ _ Hw) in Hk. injection Hk as <-. cbn [mw_fd] in Hb.
+      rewrite upd_other in Hj by exact Hji. destruct (Hother j wj Hji Hj) as (_ & Hfj).
+      destruct (Hfj a Ha) as (Hx & Hlt). destruct Hfd' as [E|[E _]]; [congruence|].
+      rewrite E in Hb. injection Hb as <-. lia.
+    + rewrite upd_other in Hj by exact Hji. rewrite upd_other in Hk by exact Hki.
+      exact (mi_fds s I j k wj wk a Hj Hk Ha Hb).
+  - intros y Hy. destruct (mi_foreign s I y Hy) as (A & B).
+    assert (Hne : y <> mw_name w).
+    { intros ->. apply Hy. rewrite Hname. unfold names. apply in_map. exact (nth_error_In _ _ Ht). }
+    destruct (Hframe y Hne) as (A' & B'). split; congruence.
+  - intros a Ha. rewrite <- (mi_old s I a Ha). pose proof (mi_next s I). apply Hino; [|lia].
+    intros E. pose proof (wi_fd _ _ _ HW a E). lia.
+  - pose proof (mi_next s I). lia.
+  - exact (mi_ok s I).
+Qed.
+
+Lemma MInv_run sched : forall s, MInv s -> MInv (mcrun s sched).
+Proof.
+  induction sched as [|i sched IH]; intros s I; [exact I|].
+  cbn [mcrun fold_left]. apply IH. apply MInv_step. exact I.
+Qed.
+
+(* Independence.  For every interleaving: no scheduled event ever demanded an impossible outcome
+   (nobody's open_excl or link is made to fail by another delivery), and what each delivery sees of its
+   own files is exactly its own single-writer run [mrun] of the events it has performed. *)
+Theorem maildir_conc_projection_gen : forall sched,
+  let s := mcrun minit sched in
+  ms_ok s = true /\
+  forall i w, nth_error (ms_ws s) i = Some w -> mproj (ms_dir s) w = mrun (mw_done w).
+Proof.
+  intros sched s. pose proof (MInv_run sched minit MInv_init) as I. fold s in I.
+  split; [exact (mi_ok s I)|]. intros i w Hw. destruct (spec_at s i w I Hw) as (t & Ht).
+  destruct (mi_w s I i w t Hw Ht) as (_ & HW). exact (wi_proj _ _ _ HW).
+Qed.
+
+(* For every interleaving, every name visible in new/ is either one of ours, and then its file holds
+   exactly its delivery's content, all of it fsynced; or it is a name that was there before, still
+   pointing to the same inode, whose bytes nobody touched. *)
+Theorem maildir_conc_visible_gen : forall sched,
+  let s := mcrun minit sched in
+  forall y a, d_new (ms_dir s) y = Some a ->
+    (exists i t, nth_error spec i = Some t /\ y = fst t /\
+                 i_data (d_ino (ms_dir s) a) = fst (snd t) /\
+                 i_synced (d_ino (ms_dir s) a) = length (fst (snd t)))
+    \/ (~ In y names /\ d_new d0 y = Some a /\
+        ((a < d_next d0)%nat -> d_ino (ms_dir s) a = d_ino d0 a)).
+Proof.
+  intros sched s y a Hy. pose proof (MInv_run sched minit MInv_init) as I. fold s in I.
+  destruct (in_dec Nat.eq_dec y names) as [Hin|Hout].
+  - left. apply In_nth_error in Hin as (i & Hi). unfold names in Hi. rewrite nth_error_map' in Hi.
+    destruct (nth_error spec i) as [t|] eqn:Ht; [|discriminate]. cbn in Hi. injection Hi as <-.
+    destruct (nth_error (ms_ws s) i) as [w|] eqn:Hw.
+    2:{ exfalso. apply nth_error_None in Hw. rewrite (mi_len s I) in Hw.
+        assert (nth_error spec i <> None) by congruence. apply nth_error_Some in H. lia. }
+    destruct (mi_w s I i w t Hw Ht) as (Hname & [P T N F W R]).
+    rewrite <- Hname in Hy. pose proof (N a Hy) as Hfd.
+    assert (V : visible_ok (fst (snd t)) (mrun_of w) = true).
+    { destruct (mw_evs w); cbn [mprefixes_ok] in R; apply andb_true_iff in R as [R _]; exact R. }
+    rewrite <- P in V. unfold visible_ok, mproj in V. cbn [m_new m_data m_synced] in V.
+    rewrite Hy, Hfd in V. cbn [isSome negb orb] in V. apply andb_true_iff in V as [V1 V2].
+    apply beq_eq in V1. apply Nat.eqb_eq in V2.
+    exists i, t. repeat split; auto. rewrite V2, V1. reflexivity.
+  - right. destruct (mi_foreign s I y Hout) as (_ & B). split; [exact Hout|]. split; [congruence|].
+    exact (mi_old s I a).
+Qed.
+
+(* the same for tmp/: a foreign tmp entry is never touched (in particular never unlinked) *)
+Theorem maildir_conc_foreign_gen : forall sched,
+  let s := mcrun minit sched in
+  forall y, ~ In y names ->
+    d_tmp (ms_dir s) y = d_tmp d0 y /\ d_new (ms_dir s) y = d_new d0 y.
+Proof.
+  intros sched s y Hy. pose proof (MInv_run sched minit MInv_init) as I. exact (mi_foreign _ I y Hy).
+Qed.
+
+End Maildir.
+
+(* ---- instance: n copies of qmail-local's maildir_child(), each with its own name, content, faults ---- *)
+Definition mdspec (l : list (nat * (bytes * mfaults))) : list (nat * (bytes * list mev)) :=
+  map (fun t => (fst t, (fst (snd t), maildir_events (fst (snd t)) (snd (snd t))))) l.
+Lemma mdspec_names l : names (mdspec l) = map fst l.
+Proof. unfold names, mdspec. rewrite map_map. reflexivity. Qed.
+Lemma mdspec_ok l :
+  Forall (fun t => mwf mfs0 (snd (snd t)) = true /\
+                   mprefixes_ok (fst (snd t)) mfs0 (snd (snd t)) = true) (mdspec l).
+Proof.
+  apply Forall_forall. intros t Hin. apply in_map_iff in Hin as (u & <- & _). cbn [fst snd].
+  split; [apply maildir_wf|apply maildir_prefixes_ok_l].
+Qed.
+Definition mdstart (d0 : mdir) (l : list (nat * (bytes * mfaults))) : mstate := minit d0 (mdspec l).
+
+Theorem maildir_concurrent_independent : forall d0 l sched,
+  NoDup (map fst l) ->
+  (forall x, In x (map fst l) -> d_tmp d0 x = None /\ d_new d0 x = None) ->
+  let s := mcrun (mdstart d0 l) sched in
+  ms_ok s = true /\
+  forall i w, nth_error (ms_ws s) i = Some w -> mproj (ms_dir s) w = mrun (mw_done w).
+Proof.
+  intros d0 l sched Hnd Hfresh. rewrite <- mdspec_names in Hnd, Hfresh.
+  exact (maildir_conc_projection_gen d0 (mdspec l) Hnd Hfresh (mdspec_ok l) sched).
+Qed.
+Print Assumptions maildir_concurrent_independent.
+
+Theorem maildir_concurrent_visible_complete : forall d0 l sched,
+  NoDup (map fst l) ->
+  (forall x, In x (map fst l) -> d_tmp d0 x = None /\ d_new d0 x = None) ->
+  let s := mcrun (mdstart d0 l) sched in
+  forall y a, d_new (ms_dir s) y = Some a ->
+    (exists i x content f, nth_error l i = Some (x, (content, f)) /\ y = x /\
+                 i_data (d_ino (ms_dir s) a) = content /\
+                 i_synced (d_ino (ms_dir s) a) = length content)
+    \/ (~ In y (map fst l) /\ d_new d0 y = Some a /\
+        ((a < d_next d0)%nat -> d_ino (ms_dir s) a = d_ino d0 a)).
+Proof.
+  intros d0 l sched Hnd Hfresh s y a Hy. rewrite <- mdspec_names in *.
+  destruct (maildir_conc_visible_gen d0 (mdspec l) Hnd Hfresh (mdspec_ok l) sched y a Hy)
+    as [(i & t & Ht & E & D & S)|H]; [left|right; exact H].
+  unfold mdspec in Ht. rewrite nth_error_map' in Ht.
+  destruct (nth_error l i) as [[x [content f]]|] eqn:El; [|discriminate].
+  cbn in Ht. injection Ht as <-. cbn [fst snd] in *. exists i, x, content, f. auto.
+Qed.
+Print Assumptions maildir_concurrent_visible_complete.
+
+(* two deliveries, the case in the property text *)
+Corollary maildir_two_deliveries : forall d0 x1 c1 f1 x2 c2 f2 sched,
+  x1 <> x2 ->
+  d_tmp d0 x1 = None -> d_new d0 x1 = None -> d_tmp d0 x2 = None -> d_new d0 x2 = None ->
+  let s := mcrun (mdstart d0 [(x1, (c1, f1)); (x2, (c2, f2))]) sched in
+  ms_ok s = true /\
+  (forall a, d_new (ms_dir s) x1 = Some a ->
+     i_data (d_ino (ms_dir s) a) = c1 /\ i_synced (d_ino (ms_dir s) a) = length c1) /\
+  (forall a, d_new (ms_dir s) x2 = Some a ->
+     i_data (d_ino (ms_dir s) a) = c2 /\ i_synced (d_ino (ms_dir s) a) = length c2).
+Proof.
+  intros d0 x1 c1 f1 x2 c2 f2 sched Hne T1 N1 T2 N2 s.
+  assert (Hnd : NoDup (map fst [(x1, (c1, f1)); (x2, (c2, f2))])).
+  { cbn. constructor; [intros [H|[]]; congruence|]. constructor; [intros []|constructor]. }
+  assert (Hfresh : forall x, In x (map fst [(x1, (c1, f1)); (x2, (c2, f2))]) ->
+                     d_tmp d0 x = None /\ d_new d0 x = None).
+  { cbn. intros x [<-|[<-|[]]]; auto. }
+  split; [exact (proj1 (maildir_concurrent_independent d0 _ sched Hnd Hfresh))|].
+  split; intros a Ha;
+    destruct (maildir_concurrent_visible_complete d0 _ sched Hnd Hfresh _ a Ha)
+      as [(i & x & c & f & Hi & E & D & S)|(Hout & _)];
+    try (exfalso; apply Hout; cbn; auto; fail);
+    destruct i as [|[|i]]; cbn in Hi; try discriminate; try (destruct i; discriminate);
+    injection Hi as <- <- <-; auto; congruence.
+Qed.
+Print Assumptions maildir_two_deliveries.
+
+(* ---- non-vacuity: a maildir that already holds new/7, two deliveries named 100 and 200;
+   delivery 200 gets EEXIST once on open_excl and later fails at fsync ---- *)
+Definition mf_none : mfaults :=
+  {| mf_chdir := false; mf_create_fail := 0; mf_create_err := false; mf_write := None; mf_read := None;
+     mf_fsync := false; mf_close := false; mf_link := false |}.
+Definition mf_fsyncfail : mfaults :=
+  {| mf_chdir := false; mf_create_fail := 1; mf_create_err := false; mf_write := None; mf_read := None;
+     mf_fsync := true; mf_close := false; mf_link := false |}.
+Definition d_ex : mdir :=
+  {| d_tmp := fun _ => None; d_new := fun y => if Nat.eqb y 7 then Some 0%nat else None;
+     d_ino := fun _ => {| i_data := [42]; i_synced := 1 |}; d_next := 1 |}.
+Definition exm : list (nat * (bytes * mfaults)) :=
+  [(100%nat, ([1; 2; 3], mf_none)); (200%nat, ([4; 5], mf_fsyncfail))].
+Definition exm_sched : list nat := [0; 1; 1; 0; 1; 0; 1; 0; 0; 1; 1; 0; 0; 0; 1; 1]%nat.
+(* observable: ok flag; (tmp/x, new/x) for the listed names; all inodes (bytes, fsynced);
+   per delivery (exit code, events left) *)
+Definition mview (s : mstate) (xs : list nat) :=
+  (ms_ok s, map (fun x => (d_tmp (ms_dir s) x, d_new (ms_dir s) x)) xs,
+   map (fun a => (i_data (d_ino (ms_dir s) a), i_synced (d_ino (ms_dir s) a))) (seq 0 (d_next (ms_dir s))),
+   map (fun w => (mexit (mw_done w), length (mw_evs w))) (ms_ws s)).
+(* both tmp files exist and are written, only the first is fsynced, nothing new is visible yet *)
+Example maildir_conc_ex_mid :
+  mview (mcrun (mdstart d_ex exm) (firstn 8 exm_sched)) [7; 100; 200]%nat =
+  (true, [(None, Some 0); (Some 1, None); (Some 2, None)]%nat,
+   [([42], 1%nat); ([1; 2; 3], 3%nat); ([4; 5], 0%nat)], [(None, 4%nat); (None, 3%nat)]).
+Proof. vm_compute. reflexivity. Qed.
+(* the end: new/100 is complete and durable, delivery 200 exited 1 and left no name behind, new/7 as before *)
+Example maildir_conc_ex_final :
+  mview (mcrun (mdstart d_ex exm) exm_sched) [7; 100; 200]%nat =
+  (true, [(None, Some 0); (None, Some 1); (None, None)]%nat,
+   [([42], 1%nat); ([1; 2; 3], 3%nat); ([4; 5], 0%nat)], [(Some 0, 0%nat); (Some 1, 0%nat)]).
+Proof. vm_compute. reflexivity. Qed.
+
+(* the names must differ.  With the SAME name the fault plans "open_excl succeeds" of both deliveries
+   cannot both be played: while tmp/100 exists the second open_excl cannot succeed ... *)
+Definition exm_same : list (nat * (bytes * mfaults)) :=
+  [(100%nat, ([1; 2; 3], mf_none)); (100%nat, ([4; 5], mf_none))].
+Example maildir_same_name_create_impossible :
+  ms_ok (mcrun (mdstart d_ex exm_same) [0; 0; 1; 1]%nat) = false.
+Proof. vm_compute. reflexivity. Qed.
+(* ... and after the first delivery has finished (tmp/100 unlinked, new/100 present) the second one can
+   create and write tmp/100 again but its link cannot succeed; new/100 still is the first message *)
+Example maildir_same_name_link_impossible :
+  mview (mcrun (mdstart d_ex exm_same) [0; 0; 0; 0; 0; 0; 0; 0; 1; 1; 1; 1; 1; 1; 1]%nat) [7; 100]%nat =
+  (false, [(None, Some 0); (Some 2, Some 1)]%nat,
+   [([42], 1%nat); ([1; 2; 3], 3%nat); ([4; 5], 2%nat)], [(Some 0, 0%nat); (None, 3%nat)]).
+Proof. vm_compute. reflexivity. Qed.
+Example maildir_independent_without_distinct_names_refuted :
+  ~ (forall d0 l sched,
+       (forall x, In x (map fst l) -> d_tmp d0 x = None /\ d_new d0 x = None) ->
+       ms_ok (mcrun (mdstart d0 l) sched) = true).
+Proof.
+  intros H. specialize (H d_ex exm_same [0; 0; 1; 1]%nat).
+  rewrite maildir_same_name_create_impossible in H. 
+  assert (false = true); [|discriminate]. apply H. cbn. intros x [<-|[<-|[]]]; auto.
+Qed.
+
+(* ================================================================== A'. mbox: several write() calls *)
+(* mailfile() writes through a substdio buffer: an entry longer than the buffer reaches the file in
+   several write() calls.  [chunked cuts evs] replaces every BWrite d by writes of consecutive pieces
+   of d, cut at the given sizes.  Everything above holds for chunked programs as well. *)
+Fixpoint chunks (cuts : list nat) (d : bytes) : list bytes :=
+  match cuts with [] => [d] | c :: cs => firstn c d :: chunks cs (skipn c d) end.
+Definition split_write (cuts : list nat) (e : bev) : list bev :=
+  match e with BWrite d => map BWrite (chunks cuts d) | _ => [e] end.
+Definition chunked (cuts : list nat) (evs : list bev) : list bev := flat_map (split_write cuts) evs.
+
+Lemma pstep_chunks cuts : forall d p, fold_left pstep (map BWrite (chunks cuts d)) p = pstep p (BWrite d).
+Proof.
+  induction cuts as [|c cs IH]; intros d p; [reflexivity|].
+  cbn [chunks map fold_left]. rewrite IH. destruct p; reflexivity.
+Qed.
+Lemma pstep_split cuts e p : fold_left pstep (split_write cuts e) p = pstep p e.
+Proof. destruct e; try reflexivity. apply pstep_chunks. Qed.
+Lemma phase_chunked cuts evs : forall p, fold_left pstep (chunked cuts evs) p = fold_left pstep evs p.
+Proof.
+  induction evs as [|e r IH]; intros p; [reflexivity|].
+  unfold chunked in *. cbn [flat_map fold_left]. rewrite fold_left_app, pstep_split. apply IH.
+Qed.
+Lemma bexit_writes (ds : list bytes) acc :
+  fold_left (fun acc e => match e with BExit c => Some c | _ => acc end) (map BWrite ds) acc = acc.
+Proof. induction ds as [|d ds IH]; [reflexivity|]. cbn [map fold_left]. exact IH. Qed.
+Lemma bexit_chunked cuts evs : bexit (chunked cuts evs) = bexit evs.
+Proof.
+  unfold bexit. generalize (@None N). induction evs as [|e r IH]; intros acc; [reflexivity|].
+  unfold chunked in *. cbn [flat_map fold_left]. rewrite fold_left_app. rewrite <- IH. f_equal.
+  destruct e; try reflexivity. apply bexit_writes.
+Qed.
+Lemma bstep_chunks cuts : forall d x p, fold_left bstep (map BWrite (chunks cuts d)) (x, p) = (x ++ d, p).
+Proof.
+  induction cuts as [|c cs IH]; intros d x p; [reflexivity|].
+  cbn [chunks map fold_left bstep fst snd]. rewrite IH, <- app_assoc, firstn_skipn. reflexivity.
+Qed.
+Lemma bstep_split cuts e s : fold_left bstep (split_write cuts e) s = bstep s e.
+Proof. destruct e; try reflexivity. destruct s as [x p]. apply bstep_chunks. Qed.
+Lemma brun_chunked cuts evs : forall s, fold_left bstep (chunked cuts evs) s = fold_left bstep evs s.
+Proof.
+  induction evs as [|e r IH]; intros s; [reflexivity|].
+  unfold chunked in *. cbn [flat_map fold_left]. rewrite fold_left_app, bstep_split. apply IH.
+Qed.
+
+Lemma all_states_head P s evs : all_states P s evs -> P s.
+Proof. destruct evs; cbn [all_states]; tauto. Qed.
+Lemma all_states_app P l1 : forall s l2,
+  all_states P s l1 -> all_states P (fold_left bstep l1 s) l2 -> all_states P s (l1 ++ l2).
+Proof.
+  induction l1 as [|e l1 IH]; intros s l2 H1 H2.
+  - exact H2.
+  - cbn [app all_states fold_left] in *. split; [tauto|]. apply IH; tauto.
+Qed.
+Lemma prefix_between (base entry x d : bytes) (k k' c : nat) :
+  x = base ++ firstn k entry -> x ++ d = base ++ firstn k' entry ->
+  exists j : nat, x ++ firstn c d = base ++ firstn j entry.
+Proof.
+  intros -> H. rewrite <- app_assoc in H. apply app_inv_head in H.
+  exists (Nat.min (length (firstn k entry) + c) k').
+  rewrite <- app_assoc. f_equal. rewrite <- firstn_firstn, <- H. symmetry. apply firstn_app_2.
+Qed.
+Lemma all_states_chunks base entry cuts : forall d x p,
+  (exists k : nat, x = base ++ firstn k entry) -> (exists k : nat, x ++ d = base ++ firstn k entry) ->
+  all_states (fun s => exists k : nat, fst s = base ++ firstn k entry) (x, p) (map BWrite (chunks cuts d)).
+Proof.
+  induction cuts as [|c cs IH]; intros d x p H1 H2.
+  - cbn [chunks map all_states bstep fst snd]. auto.
+  - cbn [chunks map all_states bstep fst snd]. split; [exact H1|]. apply IH.
+    + destruct H1 as (k & H1), H2 as (k' & H2). exact (prefix_between base entry x d k k' c H1 H2).
+    + rewrite <- app_assoc, firstn_skipn. exact H2.
+Qed.
+Lemma all_states_chunked base entry cuts evs : forall s,
+  all_states (fun s => exists k : nat, fst s = base ++ firstn k entry) s evs ->
+  all_states (fun s => exists k : nat, fst s = base ++ firstn k entry) s (chunked cuts evs).
+Proof.
+  induction evs as [|e r IH]; intros s H; [exact H|].
+  cbn [all_states] in H. destruct H as (Hs & Hr).
+  unfold chunked in *. cbn [flat_map]. apply all_states_app.
+  - pose proof (all_states_head _ _ _ Hr) as Hn.
+    destruct e; try (cbn [split_write all_states]; auto; fail).
+    destruct s as [x p]. cbn [split_write]. apply all_states_chunks; [exact Hs|exact Hn].
+  - rewrite bstep_split. apply IH. exact Hr.
+Qed.
+
+Lemma good_prog_chunked cuts entry evs : good_prog entry evs -> good_prog entry (chunked cuts evs).
+Proof.
+  intros (G1 & G2 & G3). unfold good_prog, phase_of, brun in *.
+  rewrite phase_chunked, bexit_chunked. split; [exact G1|]. split; [exact G2|].
+  intros base. destruct (G3 base) as (A & B & C). rewrite brun_chunked. split; [|split; assumption].
+  apply all_states_chunked. exact A.
+Qed.
+
+(* writer i: entry, fault plan, and where its writes are cut *)
+Definition cprogs (l : list (bytes * bfaults * list nat)) : list (list bev) :=
+  map (fun t => chunked (snd t) (mailfile_events (fst (fst t)) (snd (fst t)))) l.
+Definition cspec (l : list (bytes * bfaults * list nat)) : list (bytes * list bev) :=
+  map (fun t => (fst (fst t), chunked (snd t) (mailfile_events (fst (fst t)) (snd (fst t))))) l.
+Definition centry_of (l : list (bytes * bfaults * list nat)) (i : nat) : bytes :=
+  nth i (map (fun t => fst (fst t)) l) [].
+Lemma cspec_progs l : map snd (cspec l) = cprogs l.
+Proof. unfold cspec, cprogs. rewrite map_map. reflexivity. Qed.
+Lemma cspec_ent l : forall i, ent (cspec l) i = centry_of l i.
+Proof. unfold ent, centry_of. induction l as [|t l IH]; intros [|i]; cbn [cspec map nth fst]; auto. Qed.
+Lemma cspec_good l : Forall (fun t => bf_lock (snd (fst t)) = false) l ->
+  Forall (fun ep => good_prog (fst ep) (snd ep)) (cspec l).
+Proof.
+  intros H. unfold cspec. apply Forall_forall. intros ep Hin.
+  apply in_map_iff in Hin as (t & <- & Hin). cbn [fst snd].
+  apply good_prog_chunked, mailfile_good. exact (proj1 (Forall_forall _ _) H t Hin).
+Qed.
+
+Theorem mbox_concurrent_chunked_no_interleaving : forall old l sched,
+  Forall (fun t => bf_lock (snd (fst t)) = false) l ->
+  let s := crun (cinit old (cprogs l)) sched in
+  exists k : nat,
+    c_file s = old ++ concat (map (centry_of l) (committed s)) ++
+               match c_lock s with None => [] | Some h => firstn k (centry_of l h) end.
+Proof.
+  intros old l sched Hl s.
+  destruct (conc_no_interleaving_gen old (cspec l) (cspec_good l Hl) sched) as (k & Hk).
+  unfold start in Hk. rewrite cspec_progs in Hk. fold s in Hk.
+  exists k. rewrite Hk. rewrite (map_ext _ _ (cspec_ent l)).
+  destruct (c_lock s); [rewrite cspec_ent|]; reflexivity.
+Qed.
+Print Assumptions mbox_concurrent_chunked_no_interleaving.
+
+Theorem mbox_concurrent_chunked_finished : forall old l sched,
+  Forall (fun t => bf_lock (snd (fst t)) = false) l ->
+  let s := crun (cinit old (cprogs l)) sched in
+  all_finished s ->
+  c_lock s = None /\
+  c_file s = old ++ concat (map (centry_of l) (committed s)) /\
+  NoDup (committed s) /\
+  forall i, In i (committed s) <-> wexit (c_ws s) i = Some 0.
+Proof.
+  intros old l sched Hl s Fin.
+  pose proof (conc_finished_gen old (cspec l) (cspec_good l Hl) sched) as H.
+  unfold start in H. rewrite cspec_progs in H. specialize (H Fin).
+  rewrite (map_ext _ _ (cspec_ent l)) in H. exact H.
+Qed.
+Print Assumptions mbox_concurrent_chunked_finished.
+
+(* with several write() calls the lock is what keeps entries apart: two deliveries whose lock_ex()
+   failed, both successful (exit 0), each writing its 2-byte entry in two calls - the bytes interleave *)
+Definition exc_nolock : list (bytes * bfaults * list nat) :=
+  [([1; 2], bf_nolock None, [1%nat]); ([3; 4], bf_nolock None, [1%nat])].
+Definition exc_sched : list nat := [0; 1; 0; 1; 0; 1; 0; 1; 0; 1; 0; 1; 0; 1]%nat.
+Example mbox_concurrent_chunked_without_lock_refuted :
+  cview (crun (cinit [9] (cprogs exc_nolock)) exc_sched) =
+  ([9; 1; 3; 2; 4], None, [], [], [Some 0; Some 0], [0; 0]%nat).
+Proof. vm_compute. reflexivity. Qed.
+(* the same two deliveries and the same schedule with the lock obtained: one whole entry after the other *)
+Definition exc_lock : list (bytes * bfaults * list nat) :=
+  [([1; 2], bf_none, [1%nat]); ([3; 4], bf_none, [1%nat])].
+Example mbox_concurrent_chunked_with_lock :
+  cview (crun (cinit [9] (cprogs exc_lock)) (exc_sched ++ [1; 1; 1; 1; 1; 1]%nat)) =
+  ([9; 1; 2; 3; 4], None, [0; 1]%nat, [0; 1]%nat, [Some 0; Some 0], [0; 0]%nat).
+Proof. vm_compute. reflexivity. Qed.
+(* mid-way: half of the holder's entry is in the file, the other delivery waits *)
+Example mbox_concurrent_chunked_with_lock_mid :
+  cview (crun (cinit [9] (cprogs exc_lock)) (firstn 8 exc_sched)) =
+  ([9; 1], Some 0%nat, [0%nat], [], [None; None], [3; 6]%nat).
+Proof. vm_compute. reflexivity. Qed.
+
+(* ================================================================== A''. no deadlock *)
+(* In every reachable state that is not finished some delivery can move (the holder never waits for the
+   lock; with the lock free anybody can move), so every system of good programs can run to the end:
+   the hypothesis [all_finished] of the theorems above is satisfiable from every reachable state. *)
+Definition remaining (ws : list writer) : nat := fold_right (fun w n => (length (w_evs w) + n)%nat) 0%nat ws.
+
+Lemma remaining_upd ws : forall i w w', nth_error ws i = Some w ->
+  (remaining (upd ws i w') + length (w_evs w) = remaining ws + length (w_evs w'))%nat.
+Proof.
+  induction ws as [|h t IH]; intros [|i] w w' H; cbn in H; try discriminate.
+  - injection H as ->. cbn [upd remaining fold_right]. lia.
+  - cbn [upd remaining fold_right]. specialize (IH i w w' H). unfold remaining in IH. lia.
+Qed.
+Lemma cstep_adv s i w e rest :
+  nth_error (c_ws s) i = Some w -> w_evs w = e :: rest -> (e = BLock true -> c_lock s = None) ->
+  exists w', c_ws (cstep s i) = upd (c_ws s) i w' /\ w_evs w' = rest.
+Proof.
+  intros Hw Hev Hl. unfold cstep. rewrite Hw, Hev.
+  destruct e as [b|[|]| | | | |c]; cbn [c_ws]; try (eexists; split; [reflexivity|reflexivity]).
+  rewrite (Hl eq_refl). cbn [c_ws]. eexists; split; reflexivity.
+Qed.
+Lemma forallb_false_nth {A} (f : A -> bool) l :
+  forallb f l = false -> exists i x, nth_error l i = Some x /\ f x = false.
+Proof.
+  induction l as [|h t IH]; intros H; [discriminate|]. cbn in H.
+  destruct (f h) eqn:E.
+  - destruct (IH H) as (i & x & Hi & Hx). exists (S i), x. auto.
+  - exists 0%nat, h. auto.
+Qed.
+
+Section Progress.
+Variable old : bytes.
+Variable spec : list (bytes * list bev).
+Hypothesis spec_good : Forall (fun ep => good_prog (fst ep) (snd ep)) spec.
+
+Lemma conc_progress_gen s : Inv old spec s -> all_finishedb s = false ->
+  exists i, (remaining (c_ws (cstep s i)) < remaining (c_ws s))%nat.
+Proof.
+  intros I Hf.
+  assert (Adv : forall i w e rest, nth_error (c_ws s) i = Some w -> w_evs w = e :: rest ->
+            (e = BLock true -> c_lock s = None) ->
+            (remaining (c_ws (cstep s i)) < remaining (c_ws s))%nat).
+  { intros i w e rest Hw Hev Hl. destruct (cstep_adv s i w e rest Hw Hev Hl) as (w' & -> & Hr).
+    pose proof (remaining_upd (c_ws s) i w w' Hw) as R. rewrite Hev, Hr in R. cbn [length] in R. lia. }
+  destruct (c_lock s) as [h|] eqn:L.
+  - pose proof (inv_file old spec s I) as F. rewrite L in F. destruct F as (w & Hw & _).
+    destruct (inv_w old spec s I h w Hw) as (Wp & Wh & _). pose proof (proj2 Wh L) as P.
+    assert (Hh : (h < length spec)%nat).
+    { rewrite <- (inv_len old spec s I). apply nth_error_Some. congruence. }
+    destruct (good_at spec spec_good h Hh) as (Gph & _ & _).
+    destruct (w_evs w) as [|e rest] eqn:Hev.
+    + exfalso. rewrite app_nil_r in Wp. rewrite <- Wp, P in Gph. destruct Gph; discriminate.
+    + exists h. apply (Adv h w e rest Hw Hev). intros ->. exfalso.
+      rewrite <- Wp in Gph. unfold phase_of in Gph. rewrite fold_left_app in Gph.
+      fold (phase_of (w_done w)) in Gph. rewrite P in Gph. cbn [fold_left pstep] in Gph.
+      rewrite pstep_bad in Gph. destruct Gph; discriminate.
+  - unfold all_finishedb in Hf. apply forallb_false_nth in Hf as (i & w & Hw & Hx).
+    destruct (w_evs w) as [|e rest] eqn:Hev; [discriminate|].
+    exists i. apply (Adv i w e rest Hw Hev). intros _. reflexivity.
+Qed.
+
+Theorem conc_can_finish_gen : forall s, Inv old spec s -> exists sched, all_finished (crun s sched).
+Proof.
+  intros s. remember (remaining (c_ws s)) as n eqn:Hn.
+  assert (Hle : (remaining (c_ws s) <= n)%nat) by lia. clear Hn. revert s Hle.
+  induction n as [|n IH]; intros s Hle I.
+  - destruct (all_finishedb s) eqn:Hf; [exists []; apply all_finishedb_ok; exact Hf|].
+    destruct (conc_progress_gen s I Hf) as (i & Hi). lia.
+  - destruct (all_finishedb s) eqn:Hf; [exists []; apply all_finishedb_ok; exact Hf|].
+    destruct (conc_progress_gen s I Hf) as (i & Hi).
+    destruct (IH (cstep s i)) as (sched & Hs); [lia|apply (Inv_step old spec spec_good); exact I|].
+    exists (i :: sched). exact Hs.
+Qed.
+End Progress.
+
+(* from any state the n mailfile() deliveries can reach, they can all finish *)
+Theorem mbox_concurrent_can_finish : forall old l sched,
+  Forall (fun ef => bf_lock (snd ef) = false) l ->
+  exists sched', all_finished (crun (mstart old l) (sched ++ sched')).
+Proof.
+  intros old l sched Hl.
+  pose proof (Inv_run old (mspec l) (mspec_good l Hl) sched _ (Inv_init old (mspec l))) as I.
+  destruct (conc_can_finish_gen old (mspec l) (mspec_good l Hl) _ I) as (sched' & H).
+  exists sched'. unfold crun in *. rewrite fold_left_app. rewrite mspec_progs in H. exact H.
+Qed.
+Print Assumptions mbox_concurrent_can_finish.
